@@ -150,6 +150,7 @@ def run(ctx):
     no_path_cases(ctx, S, ns)
     spec_reading_cases(ctx)
     no_switch_cases(ctx, S)
+    repeated_statement_cases(ctx, S)
     ctx.explanation = ("Theorems for an ARBITRARY tracer: the three evaluators compute the same outcome whenever they have the same spec; folding "
                        "returns a path only if the run-time routes return that path; no spec / non-device callee / failing kernel give no path on "
                        "any route; reversed wrapper = reversed path; every permutation of the keyword pairs gives the signature-ordered argument "
@@ -213,6 +214,93 @@ def no_switch_cases(ctx, S):
                 else:
                     n_ok += 1
     ctx.count("switch-free kernels x routes x fwd/rev: agree", n_ok)
+
+
+REPEATED_SRC = '''
+@tweezer
+def shift_row(xs: ilist.IList[float, Any], y: float):
+    start = grid.from_positions(xs, [y])
+    action.set_loc(start)
+    action.turn_on(action.ALL, action.ALL)
+    action.move(grid.shift(start, 1.0, 0.5))
+    action.turn_off(action.ALL, action.ALL)
+
+@move{SUBDEC}
+def shuttle(xs: ilist.IList[float, Any], y: float):
+    f = schedule.device_fn(shift_row, ilist.range(len(xs)), [0])
+    f(xs, y)
+
+@move{DEC}
+def main({PARAMS}):
+{BODY}
+'''
+
+REPEATED_BODIES = {
+    # the same device_fn statement evaluated for a batch of one, of three and of two
+    "subroutine called with batches of different sizes":
+        ("    shuttle({A}, {Y})\n    shuttle({B}, {Y})\n    shuttle({C}, {Y})\n", False),
+    "device_fn in a loop body, tone list growing with the iteration":
+        ("    i = 0\n    for i in range(3):\n        g = schedule.device_fn(shift_row, ilist.range(i + 1), [0])\n"
+         "        g({B}[0:i + 1], {Y})\n", True),
+    "subroutine called in a loop and once more after it":
+        ("    i = 0\n    for i in range(2):\n        shuttle({A}, {Y})\n    shuttle({B}, {Y})\n", False),
+}
+
+
+def repeated_statement_cases(ctx, S):
+    """one schedule.device_fn statement evaluated several times with different tone operands (subroutine entered repeatedly,
+    loop body): every evaluation builds the device function of ITS operands, on every route"""
+    A, B, C, Y = [1.0], [1.0, 3.0, 6.0], [2.0, 4.0], 2.0
+    n_ok = 0
+    for label, (body, slices) in REPEATED_BODIES.items():
+        wants = None
+        for rname, dec, subdec, plain, byparam in (
+                ("compile-time spec, constant operands (folded / inlined)", "(arch_spec=S)", "", True, False),
+                ("compile-time spec, aggressive unrolling", "(arch_spec=S, aggressive=True)", "", True, False),
+                ("recorded spec, plain interpreter, run-time operands", "(arch_spec=S, fold=False)", "(fold=False)", True, True),
+                ("run-time spec interpreter, run-time operands", "(fold=False)", "(fold=False)", False, True),
+                ("run-time spec interpreter, constant operands", "", "", False, False)):
+            if byparam:
+                params = "a: ilist.IList[float, Any], b: ilist.IList[float, Any], c: ilist.IList[float, Any], y: float"
+                text = body.format(A="a", B="b", C="c", Y="y")
+                args = (_il(A), _il(B), _il(C), Y)
+            else:
+                params, text, args = "", body.format(A=repr(A), B=repr(B), C=repr(C), Y=repr(Y)), ()
+            src = REPEATED_SRC.replace("{SUBDEC}", subdec).replace("{DEC}", dec).replace("{PARAMS}", params).replace("{BODY}", text)
+            ctx.evaluations += 1
+            rep = {"repeated_src": src, "route": rname, "case": label, "plain": plain, "byparam": byparam}
+            try:
+                m = kernels.define(src, S=S)["main"]
+                st, evs, extra = events.run_events(m, args, S, plain=plain)
+            except Exception as e:
+                st, evs, extra = "err", [], f"{type(e).__name__}: {e}"
+            if st != "ok" or not evs or any(e[0] != "play" for e in evs):
+                ctx.hist("repeated device_fn statement", f"{rname}: no path")
+                ctx.fail({"kind": "no-path", "route": rname, "repeated_statement": True}, rep, f"{rname}: {label}: did not play: {str(extra)[:160]}")
+                continue
+            got = [(list(e[1].x_tones), list(e[1].y_tones), pos_text(tc.abstract_path(e[1].path))) for e in evs]
+            # what each call must play: the traced path of the kernel on that call's operands, with one tone per position
+            if wants is None:
+                shift_row = kernels.define(src, S=S)["shift_row"]
+                batches = {"subroutine called with batches of different sizes": [A, B, C],
+                           "device_fn in a loop body, tone list growing with the iteration": [B[:1], B[:2], B[:3]],
+                           "subroutine called in a loop and once more after it": [A, A, B]}[label]
+                wants = [(list(range(len(b))), [0], pos_text(tc.abstract_path(tc.run_impl(shift_row, (_il(b), Y), S)[1]))) for b in batches]
+            if got != wants:
+                k = next((j for j in range(min(len(got), len(wants))) if got[j] != wants[j]), min(len(got), len(wants)))
+                ctx.hist("repeated device_fn statement", f"{rname}: DIFFERS")
+                ctx.fail({"kind": "wrong-path", "route": rname, "repeated_statement": True}, rep,
+                         f"{rname}: {label}: call {k} played tones/path {str(got[k] if k < len(got) else None)[:120]} expected {str(wants[k] if k < len(wants) else None)[:120]}")
+            else:
+                n_ok += 1
+                ctx.hist("repeated device_fn statement", f"{rname}: agrees")
+                ctx.nt(("repeated", label, rname))
+    ctx.count("repeated device_fn statement x routes: agree", n_ok)
+
+
+def _il(l):
+    from kirin.dialects import ilist
+    return ilist.IList(list(l))
 
 
 def spec_reading_cases(ctx):
